@@ -735,6 +735,13 @@ type Search struct {
 	// local: `ok := a || b; if !ok {...}`) whose value on this path is a known non-constant definition d, the
 	// facts are CondFacts(d, direction).
 	StopEdgeF func(from *ssa.BasicBlock, si int, pathFacts []Fact) bool
+	// TrackPhis (with VisitAlias): remember, for every phi met on the path, the definition that arrived over the
+	// edge taken (`err = f(); if err == nil { err = g() }; ...; return err`: which call's error is returned
+	// depends on the path).
+	TrackPhis bool
+	// VisitAlias, when set with TrackPhis, is called (besides visit) with a resolver that maps a phi to the
+	// definition it holds on the current path (other values and unknown phis are returned unchanged).
+	VisitAlias func(ins ssa.Instruction, via *ssa.BasicBlock, resolve func(ssa.Value) ssa.Value)
 	// VisitEnv, when set, is called (besides visit) with the boolean flags known on the current path.
 	VisitEnv func(ins ssa.Instruction, via *ssa.BasicBlock, known func(ssa.Value) (bool, bool))
 }
@@ -757,7 +764,10 @@ func (a aliasEnv) key() string {
 }
 
 // enterAlias computes the alias environment after taking the edge pred -> succ.
-func (a aliasEnv) enter(pred, succ *ssa.BasicBlock) aliasEnv {
+func (a aliasEnv) enter(pred, succ *ssa.BasicBlock) aliasEnv { return a.enterT(pred, succ, false) }
+
+// enterT: all = track phis of every type (constants included), not only non-constant boolean ones.
+func (a aliasEnv) enterT(pred, succ *ssa.BasicBlock, all bool) aliasEnv {
 	idx := -1
 	for i, p := range succ.Preds {
 		if p == pred {
@@ -776,17 +786,19 @@ func (a aliasEnv) enter(pred, succ *ssa.BasicBlock) aliasEnv {
 		if !ok {
 			break
 		}
-		if b, isB := phi.Type().Underlying().(*types.Basic); !isB || b.Kind() != types.Bool {
+		if b, isB := phi.Type().Underlying().(*types.Basic); !all && (!isB || b.Kind() != types.Bool) {
 			continue
 		}
 		in := phi.Edges[idx]
-		if _, isConst := ConstBool(in); isConst {
+		if _, isConst := ConstBool(in); isConst && !all {
 			delete(out, phi)
 			continue
 		}
 		if src, isPhi := in.(*ssa.Phi); isPhi {
 			if v, known := a[src]; known {
 				out[phi] = v
+			} else if all {
+				out[phi] = in
 			} else {
 				delete(out, phi)
 			}
@@ -929,6 +941,23 @@ func (s Search) Reach(starts []Point, visit func(ins ssa.Instruction, via *ssa.B
 				break
 			}
 			visit(ins, it.via)
+			if s.VisitAlias != nil {
+				al := it.alias
+				s.VisitAlias(ins, it.via, func(v ssa.Value) ssa.Value {
+					for i := 0; i < 8; i++ {
+						phi, ok := v.(*ssa.Phi)
+						if !ok {
+							return v
+						}
+						d, known := al[phi]
+						if !known {
+							return v
+						}
+						v = d
+					}
+					return v
+				})
+			}
 			if s.VisitEnv != nil {
 				env := it.env
 				s.VisitEnv(ins, it.via, func(v ssa.Value) (bool, bool) {
@@ -979,6 +1008,9 @@ func (s Search) Reach(starts []Point, visit func(ins ssa.Instruction, via *ssa.B
 				if s.StopEdgeF != nil {
 					alias = it.alias.enter(b, succ)
 				}
+			}
+			if s.TrackPhis {
+				alias = it.alias.enterT(b, succ, true)
 			}
 			work = append(work, item{Point{succ, 0}, b, env, alias})
 		}
